@@ -11,8 +11,17 @@ def register(vc):
                "injectFile directly and ~1/3 also through GraphQLHandler as a real multipart POST with a recording "
                "Executor. Non-trivial = at least one path and (tree depth >= 2 or batch mode); distinct = distinct "
                "(route, input) JSON.",
+        "C20": "PRNG(seed)-generated federations (1-4 services, 2-4 object types + optional interface, 0-70% multi-homed fields, "
+               "priorities absent / partial / total / naming unknown services / empty, gateway options passed in a random order) "
+               "x generated valid queries (aliases, repeated keys, typed and untyped inline fragments, named fragments, directives, "
+               "variables, __typename, node(id), mutations); the plan of each operation is read back as (response path, field, "
+               "service) triples. Non-trivial = the plan touches two or more locations, or the federation has multi-homed fields "
+               "and the plan has more than one field; distinct = distinct (federation, query, operation) JSON.",
     })
     vc.ASSUMPTIONS.update({
+        "C20": ["the routing table (FieldURLMap) and merged schema are read through a wrapping planner installed with WithPlanner",
+                "route is an abstraction of groupSelectionSet/extractSelection to the location assignment (the full planner model is Gw/Plan.v when present)",
+                "gqlparser is the validity oracle for generated queries"],
         "C18": ["encoding/json and mime/multipart decode the posted operations/map as Go documents them (inputs are compared after decoding)",
                 "Go map iteration order over the files of one request is arbitrary: for two files both orders are accepted by the correspondence",
                 "the file value is opaque (graphql.Upload is neither a map nor a slice)"],
